@@ -149,7 +149,7 @@ static void process_log (int in_tick) {
     } else if (!strcmp (what, "cb-rmh") || !strcmp (what, "cb-rmn")) {
       int id = (int) e->item[1].u.number; long ret = (long) e->item[2].u.number;
       vx_obs ("  %s #%d -> %ld", what, id, ret);
-      if (id >= 0 && id < nM) {
+      if (id >= 0 && id < nM && !(M[id].owner == 1 && !B_alive)) {   /* entries of a destructed owner are not probed */
         ent *m = &M[id];
         /* by name: only the caller's own string-named call_outs can be found */
         int byname = !strcmp (what, "cb-rmn");
@@ -161,7 +161,7 @@ static void process_log (int in_tick) {
     } else if (!strcmp (what, "cb-findh")) {
       int id = (int) e->item[1].u.number; long ret = (long) e->item[2].u.number;
       vx_obs ("  %s #%d -> %ld", what, id, ret);
-      if (id >= 0 && id < nM) {
+      if (id >= 0 && id < nM && !(M[id].owner == 1 && !B_alive)) {
         long want = M[id].pending ? M[id].due - T : -1;
         if (ret != want) fail_hist ("C10:find-in-callback-wrong-time", "find_call_out(handle #%d) inside a callback returned %ld, expected %ld", id, ret, want);
       }
@@ -201,7 +201,9 @@ static void do_tick (long s, int hbco_d) {
       fail_hist ("C10:not-fired-on-time", "#%d due %ld still pending after tick at %ld (delay class: due-issue crosses wheel)", i, M[i].due, T);
   svalue_t *errs1 = safe_apply_master_ob ("query_errors", 0);
   int nerr1 = (errs1 && errs1 != (svalue_t *) -1 && errs1->type == T_ARRAY) ? errs1->u.arr->size : 0;
-  if (nerr1 - nerr0 != errors_expected) fail_hist ("C10:error-not-reported", "%d callback errors raised, %d reported to master", errors_expected, nerr1 - nerr0);
+  /* every injected error must be reported; extra reports are allowed (a funptr call_out whose owner was
+     destructed is dropped with an "Owner of function pointer is destructed" error — dropped all the same) */
+  if (nerr1 - nerr0 < errors_expected) fail_hist ("C10:error-not-reported", "%d callback errors raised, %d reported to master", errors_expected, nerr1 - nerr0);
   if (vw_call_out_time () != T) fail_hist ("C10:sweep-incomplete", "call_out_time %ld != now %ld after sweep", vw_call_out_time (), T);
 }
 
